@@ -13,6 +13,7 @@
 import Driver.Util
 import GoMC.Model.SNBTParse
 import GoMC.Model.SNBTWrite
+import GoMC.Model.SNBTWriteFast
 import GoMC.Spec.SNBT
 namespace Driver.C04
 open GoMC GoMC.Model.SNBT GoMC.Spec Driver
@@ -135,10 +136,12 @@ def handleRt (tagHex dataHex ffor pfor obs : String) : Verdict :=
     let fmt := mkFmtOracle (parseFfTable ffor)
     let tab := parsePfTable pfor
     let fo := mkFloatOracle tab
-    let (r, s') := unmarshalNBT fmt tag (Stream.ofBytes data)
-    let n := data.length - s'.flat.length
+    -- `unmarshalNBTB` / `rawStringB` are the model's `unmarshalNBT` / `rawString` on an in-memory source
+    -- (`C04_driver_walker` in Props/C04.lean), written so that large documents take linear time
+    let (r, rest') := unmarshalNBTB fmt tag data
+    let n := data.length - rest'.length
     let strOf (okText : Option Bytes) : String :=
-      match rawString fmt tag data with
+      match rawStringB fmt tag data with
       | .ok (some t) => if okText == some t then "same" else hexOfBytes t
       | .ok none => "invalid"
       | _ => "panic"
